@@ -194,15 +194,14 @@ theorem term_run {M : Nat} (hM : 1 ≤ M) (N : Nat) (ds : List Choice) : ∀ {se
         have := mu_step hM (List.nodup_range) hmv g1 (fun w hw => List.mem_range.2 (hc1 w hw).2) g2 g3 f1 g4 g5 hs
         simp only [List.filter_cons, hmv, if_true, List.length_cons]
         omega
-      · have hcm : ∃ b, c = .moveLeader b := by
+      · have hsame : vmu M (M + 1) (List.range N) s1 = vmu M (M + 1) (List.range N) s := by
           cases c <;> simp [moves] at hmv
           · exact absurd rfl (hns _ (List.mem_cons_self ..))
-          · exact ⟨_, rfl⟩
-        obtain ⟨b, rfl⟩ := hcm
-        simp only [sysStep, Option.some.injEq] at hs
-        subst hs
+          · simp only [sysStep, Option.some.injEq] at hs
+            subst hs; exact vmu_moveLeader _ _ _ _ _
+          · exact vmu_closeW hs
         simp only [List.filter_cons, hmv]
-        rw [vmu_moveLeader] at hrest
+        rw [hsame] at hrest
         exact hrest
 
 theorem live_run_seen {M : Nat} (hM : 1 ≤ M) (cs : List Choice) : ∀ {seen : List Nat} {s s' : Sys},
